@@ -359,6 +359,7 @@ pub fn subs() -> Vec<Box<dyn DynSub>> {
         sub(Sub { name: "c01.negabs", source: Source::Gen(negabs_strategy, 1_600_000, 10_000_000), oracle: negabs_oracle, known: no_known, hang_is_violation: false }),
         sub(Sub { name: "c01.muldiv", source: Source::Gen(muldiv_strategy, 4_800_000, 40_000_000), oracle: muldiv_oracle, known: muldiv_known, hang_is_violation: false }),
         sub(Sub { name: "c01.unitop", source: Source::Gen(unitop_strategy, 3_200_000, 20_000_000), oracle: unitop_oracle, known: no_known, hang_is_violation: false }),
+        crate::props::chain::c01_chain(),
         crate::props::fuzzsub::fc01(),
     ]
 }
